@@ -58,7 +58,7 @@ def export(libs=CSV_LIBS):
         cls = prog.command_library[name]
         ps = [[pn, pcfg(pv), bool(pv.required)] for pn, pv in cls.inputs.items()]
         ps.sort(key=lambda x: (x[0] == "Metadata",))
-        out.append([name, ps, out_kind(cls.output), "fuzzy" if getattr(cls, "is_fuzzy", False) else "plain",
+        out.append([name, ps, out_kind(cls.output), "fuzzy" if getattr(cls, "is_fuzzy", False) is True else "plain",
                     bool(getattr(cls, "allow_extra_inputs", False))])
     return out
 
